@@ -262,6 +262,60 @@ def c_map_err(ex, st, callee, a):
     return [(None, err(val), s2) for s2, val in call_closure(ex, st, a[1], callee, [v[3][0]])]
 
 
+@contract(r'^Result::<.*>::map::<')
+def c_result_map(ex, st, callee, a):
+    v = a[0]
+    if v[2] == 'Err': return [(None, v)]
+    return [(None, ok(val), s2) for s2, val in call_closure(ex, st, a[1], callee, [v[3][0]])]
+
+
+@contract(r'^Result::<.*>::and_then::<')
+def c_result_and_then(ex, st, callee, a):
+    v = a[0]
+    if v[2] == 'Err': return [(None, v)]
+    return [(None, val, s2) for s2, val in call_closure(ex, st, a[1], callee, [v[3][0]])]
+
+
+@contract(r'^Result::<.*>::ok$')
+def c_result_ok(ex, st, callee, a): return [(None, some(a[0][3][0]) if a[0][2] == 'Ok' else NONE)]
+
+
+@contract(r'^Result::<.*>::ok_or_else::<', r'^std::option::Option::<.*>::ok_or_else::<')
+def c_ok_or_else(ex, st, callee, a):
+    v = a[0]
+    if v[2] == 'Some': return [(None, ok(v[3][0]))]
+    return [(None, err(val), s2) for s2, val in call_closure(ex, st, a[1], callee, [])]
+
+
+@contract(r'^std::option::Option::<.*>::ok_or::<')
+def c_ok_or(ex, st, callee, a): return [(None, ok(a[0][3][0]) if a[0][2] == 'Some' else err(a[1]))]
+
+
+@contract(r'^std::option::Option::<.*>::is_some$')
+def c_is_some(ex, st, callee, a): return [(None, BoolVal(deref(st, a[0])[2] == 'Some'))]
+
+
+@contract(r'^std::option::Option::<.*>::is_none$')
+def c_is_none(ex, st, callee, a): return [(None, BoolVal(deref(st, a[0])[2] == 'None'))]
+
+
+@contract(r'^std::option::Option::<.*>::take$')
+def c_option_take(ex, st, callee, a):
+    v = deref(st, a[0]); upd(st, a[0], NONE); return [(None, v)]
+
+
+@contract(r'^std::option::Option::<.*>::(unwrap_or|unwrap_or_else)::?<?')
+def c_option_unwrap_or(ex, st, callee, a):
+    v = a[0]
+    if v[2] in ('Some', 'Ok'): return [(None, v[3][0])]
+    if 'unwrap_or_else' in callee: return [(None, val, s2) for s2, val in call_closure(ex, st, a[1], callee, [])]
+    return [(None, a[1])]
+
+
+@contract(r'^std::string::String::new$')
+def c_string_new(ex, st, callee, a): return [(None, StringVal(''))]
+
+
 @contract(r'^std::option::Option::<.*>::map::<')
 def c_option_map(ex, st, callee, a):
     if a[0][2] == 'None': return [(None, NONE)]
@@ -637,14 +691,30 @@ def c_write_str(ex, st, callee, a):
 
 
 # ----------------------------------------------------------------------------- base64
+b64dec_lenient_ok = Function('b64dec_lenient_ok', S, BoolSort())    # some other (non-canonical) engine configuration
+b64dec_lenient = Function('b64dec_lenient', S, Bytes)
+
+
+def _engine(st, v):
+    e = deref(st, v) if isinstance(v, tuple) and v[0] == 'ref' else v
+    name = e[1] if isinstance(e, tuple) and e[0] in ('extern_const', 'extern_static') else str(e)[:60]
+    st.log.append(('b64_engine', name))
+    return name.split('::')[-1] in ('URL_SAFE_NO_PAD', 'BASE64_URL_SAFE_NO_PAD')
+
+
 @contract(r'^<GeneralPurpose as base64::Engine>::encode::<')
 def c_b64_encode(ex, st, callee, a):
-    st.log.append(('b64_engine', str(a[0])[-60:])); return [(None, b64(as_bytes(st, a[1])))]
+    if not _engine(st, a[0]): raise Unsupported('base64 encode with an engine other than URL_SAFE_NO_PAD')
+    return [(None, b64(as_bytes(st, a[1])))]
 
 
 @contract(r'^<GeneralPurpose as base64::Engine>::decode::<')
 def c_b64_decode(ex, st, callee, a):
-    s_ = as_str(st, a[1]); st.log.append(('b64_engine', str(a[0])[-60:]))
+    s_ = as_str(st, a[1])
+    if not _engine(st, a[0]):
+        # unknown engine configuration: accepts at least the canonical encoding, nothing is known about what else it accepts
+        st.log.append(('b64dec', s_, b64dec_lenient(s_)))
+        return [(b64dec_lenient_ok(s_), ok(b64dec_lenient(s_))), (Not(b64dec_lenient_ok(s_)), err(adt('DecodeError', None)))]
     if is_app(s_) and s_.decl().name() == 'b64':       # decode(b64(x)) = Ok(x): inverse contract applied directly
         return [(None, ok(s_.arg(0)))]
     st.log.append(('b64dec', s_, b64dec(s_)))
@@ -987,6 +1057,10 @@ def instantiate(assertions, honest=None, secret_keys=(), rounds=2):
         for t in apps.get('b64', []):
             add(Not(Contains(t, StringVal('.')))); add(b64dec_ok(t)); add(b64dec(t) == t.arg(0))
             add((t == StringVal('')) == (Length(t.arg(0)) == 0)); add(Length(t.arg(0)) <= Length(t))
+        for t in apps.get('b64dec_lenient', []) + apps.get('b64dec_lenient_ok', []):
+            x = t.arg(0)
+            add(Length(b64dec_lenient(x)) <= Length(x))
+            if is_app(x) and x.decl().name() == 'b64': add(And(b64dec_lenient_ok(x), b64dec_lenient(x) == x.arg(0)))
         for t in apps.get('b64dec', []):
             add(Length(t) <= Length(t.arg(0)))
             add(Implies(b64dec_ok(t.arg(0)), b64(t) == t.arg(0)))
